@@ -25,6 +25,8 @@ pub struct LP {
     prog_len: u64,
     rep_product: u64,
     reference: Option<refm::Prog>,
+    /// member of the known-finding classes F4 (conditional inside an atomic context) or F25 (nested counted repeats over a nullable body)
+    f4: bool,
 }
 
 fn rep_product(n: &Node) -> u64 {
@@ -78,7 +80,15 @@ impl PatProp for Limits {
         if reference.is_some() {
             st.class("oracle:reference-available");
         }
-        Prep::Ready(LP { re, limited, pat: pat.to_string(), prog_len, rep_product: rep_product(n), reference })
+        let mut f4 = n.has_cond_leak() && ctx.active("cond_inside_atomic_context");
+        if f4 {
+            st.exclude("F4:cond_inside_atomic_context (only the tiny-exploration clause)");
+        }
+        if n.has_nested_counted_nullable_repeat() && ctx.active("counted_repeat_nullable_body_nested") {
+            st.exclude("F25:counted_repeat_nullable_body_nested (only the tiny-exploration clause)");
+            f4 = true;
+        }
+        Prep::Ready(LP { re, limited, pat: pat.to_string(), prog_len, rep_product: rep_product(n), reference, f4 })
     }
 
     fn eval(&self, _ctx: &RunCtx, p: &LP, _n: &Node, t: &str, pos: usize) -> Verdict {
@@ -94,6 +104,11 @@ impl PatProp for Limits {
         let b = stats.backtracks;
         // (iii) default limits on a tiny exploration
         if let Out::Err(e) = &base {
+            if p.f4 {
+                // known finding F4: the commit of the enclosing atomic construct discards too few alternatives, so the
+                // engine really explores more than the reference does (seen here through the step counter)
+                return Verdict::Skip("F4 / F25 class (limit error not judged)");
+            }
             if let Some(r) = &p.reference {
                 let (rr, rs) = refm::search_with(r, t, pos, SearchOpts { budget: 10_000, ..SearchOpts::default() });
                 if rr != RefResult::Budget && rs.steps <= 10_000 {
